@@ -585,6 +585,61 @@ func jobC18(c *rt.Ctx) {
 		}
 		c.ClassN("SwapConditional", 2*len(B1ss))
 	}
+	// (5b) outputs are fully overwritten: same result into a zeroed and into a dirty output variable
+	c.Require("dirty-output")
+	var junk Bignum25519
+	jl := make([]uint64, nLimbs)
+	for i := range jl {
+		jl[i] = limbMask(i) - uint64(3*i)
+	}
+	setLimbs(&junk, jl)
+	for ai := range Rs {
+		if !c.Take() {
+			continue
+		}
+		c.Class("dirty-output")
+		c.Distinct(fmt.Sprintf("dirty %d", ai), true)
+		a := &Rs[ai]
+		b := &B1as[(ai*7+1)%len(B1as)]
+		type bf struct {
+			name string
+			f    func(out, x, y *Bignum25519)
+		}
+		for _, op := range []bf{{"Add", Add}, {"Sub", Sub}, {"AddReduce", AddReduce}, {"SubReduce", SubReduce}, {"AddAfterBasic", AddAfterBasic}, {"SubAfterBasic", SubAfterBasic}, {"Mul", Mul}} {
+			var clean Bignum25519
+			d := junk
+			op.f(&clean, &a.x, &b.x)
+			op.f(&d, &a.x, &b.x)
+			c.Step(2)
+			if clean != d {
+				report(op.name+"-dirty-output", a, b, &d, valueOf(&clean), "result depends on the previous content of the output variable")
+			}
+		}
+		for _, op := range []struct {
+			name string
+			f    func(out, x *Bignum25519)
+		}{{"Square", Square}, {"Neg", Neg}, {"Copy", Copy}, {"Recip", Recip}, {"PowTwo252m3", PowTwo252m3}, {"SquareTimes5", func(o, x *Bignum25519) { SquareTimes(o, x, 5) }}} {
+			var clean Bignum25519
+			d := junk
+			op.f(&clean, &a.x)
+			op.f(&d, &a.x)
+			c.Step(2)
+			if clean != d {
+				report(op.name+"-dirty-output", a, nil, &d, valueOf(&clean), "result depends on the previous content of the output variable")
+			}
+		}
+		var cb [32]byte
+		Contract(cb[:], &a.x)
+		var e1 Bignum25519
+		e2 := junk
+		Expand(&e1, cb[:])
+		Expand(&e2, cb[:])
+		db := bytes.Repeat([]byte{0xEE}, 32)
+		Contract(db, &a.x)
+		if e1 != e2 || !bytes.Equal(db, cb[:]) {
+			report("Expand/Contract-dirty-output", a, nil, &e2, a.v, "result depends on the previous content of the output")
+		}
+	}
 	// (6) Expand on boundary strings: ignores bit 255, value = low 255 bits
 	for k := 0; k < 255+64; k++ {
 		if !c.Take() {
